@@ -10,6 +10,7 @@ mod c11;
 mod schema;
 mod c05;
 mod c06;
+mod c09;
 
 use std::collections::HashMap;
 
@@ -59,6 +60,7 @@ fn main() {
         "c05" => c05::run(&args),
         "c06" => c06::run(&args),
         "c06b64" => c06::run_b64(&args),
+        "c09" => c09::run(&args),
         other => {
             eprintln!("unknown command {other}");
             2
